@@ -126,11 +126,15 @@ ParamsNestT == {Default(FALSE), [Default(FALSE) EXCEPT !.bf = None], Default(TRU
 \* ------------------------------------------------------------------ degenerate first members
 \* a line whose first glyph has no width (advance 0: combining mark) or no height and lies outside the glyphs that follow
 FirstDegen(q) == {[m |-> "A", bb |-> <<376, 392, 376, 400>>, t |-> "c"], [m |-> "A", bb |-> <<376, 396, 384, 396>>, t |-> "c"],
-                  [m |-> "A", bb |-> <<376, 392, 384, 400>>, t |-> "c"]}
+                  [m |-> "A", bb |-> <<376, 392, 384, 400>>, t |-> "c"],
+                  \* no width and no height (font size 0); a page whose only glyphs are blank
+                  [m |-> "A", bb |-> <<376, 392, 376, 392>>, t |-> "c"], [m |-> "A", bb |-> <<376, 392, 384, 400>>, t |-> "s"]}
 DegenMoves(q) == {R(3, 0, B, B, "c"), R(3, 0 - 4, B, B, "c"), R(0, 0, B, B, "c"), R(3, 0, 0, B, "c"), R(3, 4, B, 0, "c"),
                   D(3, 0, B, B, "c"), D(3, 0 - 3, 0, B, "c"),
                   \* blanks (realised also as line feed / carriage return glyphs): last glyph of a line, a line of their own
-                  R(0, 0, B, B, "s"), D(3, 0, B, B, "s"), D(40, 0, B, B, "s"), R(0, 0, B, B, "e")}
+                  R(0, 0, B, B, "s"), D(3, 0, B, B, "s"), D(40, 0, B, B, "s"), R(0, 0, B, B, "e"),
+                  \* a glyph without width and height, after a gap (word-space test on a zero-size glyph) and on its own
+                  R(3, 0, 0, 0, "c"), R(0, 4, 0, 0, "c"), D(3, 0, 0, 0, "c")}
 ParamsDegen == {Default(FALSE), Default(TRUE), [Default(FALSE) EXCEPT !.bf = None]}
 \* ------------------------------------------------------------------ word spaces in front of glyphs wider than tall
 \* (taller than wide in vertical lines, by transposition): gaps around BOTH word_margin * width and word_margin * height,
